@@ -8,6 +8,18 @@ ASPECTS = {'valid', 'values', 'members'}
 
 def run(tier, seed, replay=None):
     rng = vlib.Rng(seed)
+    # the archetype lists hold every live entity exactly once also when a beforeRemove hook re-enters the library (shared with C03)
+    rl = [l.rstrip('\n') for l in open(replay) if l.strip() and not l.startswith('#')] if replay else []
+    if not replay or any(l.startswith('respawn') for l in rl):
+        from checks import c03
+        rs = [('replay', rl)] if replay else c03.respawn_scripts(rng.fork('respawn'), 40 if tier == 'quick' else 800)
+        bad = c03.respawn_run(rs, 'C02-rs')
+        if bad or replay:
+            cov = {'rule': 're-entrant beforeRemove hook, implementation only', 'evaluations': len(rs), 'distinct_nontrivial': len(rs)}
+            if not bad:
+                return {'violations': [], 'coverage': cov, 'level': 'proof'}
+            p = vlib.write_replay('C02', 'failing_script.txt', '# %s\n# at op %d (%s) of script %s\n%s\n' % (bad[3], bad[1], bad[2], bad[0], '\n'.join(bad[4])))
+            return {'violations': [(p, '')], 'coverage': cov, 'level': 'proof'}
     n, maxops = (220, 60) if tier == 'quick' else (3000, 250)
     prof = dict(mgr.PROFILE_BASIC)
     prof['pals'] = [0, 1, 2, 3, 4, 5, 6, 7, 8, 9, 12, 13]
